@@ -30,7 +30,7 @@ REQUIRED_REACH = ["spectrum.py:WaveSpectrum.__add__", "spectrum.py:WaveSpectrum.
                   "spectrum.py:FrequencySpectrum.interpolate_frequency", "spectrum.py:WaveSpectrum.bandpass"]
 REQUIRED_COUNTERS = {"C15.inplace_ops_on_derived_spectra": 2, "C15.ops_executed": 100, "C15.ops_on_spectra_with_nan": 10, "C15.op:interpolate_frequency:spline": 1}
 TIMEOUT = {"quick": 900, "thorough": 3600}
-N = {"quick": (8, 60), "thorough": (16, 400)}
+N = {"quick": (8, 60), "thorough": (16, 2400)}
 
 
 def plan(tier, seed):
